@@ -16,9 +16,12 @@ NOTE_COMMON = ("Trusted: z3; the symx proxies/shims (validated per run against t
 
 CLAIMED = {
     "C20": dict(
-        technique="symbolic execution of the real helpers (symx) + z3 (QF_BV / LIA-NIA) verdict per path",
+        technique="symbolic execution of the real helpers (symx) + z3 (QF_BV / LIA-NIA) verdict per path; number grammar: "
+                  "the characters of the string are solver variables and the regular expression the real code passes to "
+                  "re.match is run by a backtracking matcher with CPython's priority order over CPython's own parse tree",
         note="Out of the claim: reverse_bits, load_hex_string file branch, negative inputs to get_bytes_cnt_of_int, "
-             "'rand' pattern.",
+             "'rand' pattern; number strings longer than 5 (quick) / 7 (thorough) characters or outside the 20-symbol "
+             "alphabet.",
         ref="DESIGN.md section 3 C20"),
 }
 
